@@ -55,6 +55,12 @@ var plans = map[string]PropPlan{
 		QuickSecs: 90, ThoroughSecs: 900,
 		Assumptions: schedAssume,
 	},
+	"C10": {
+		Quick:     []Plan{{Scenario: "slot.reuse", PB: 2, DB: 0}},
+		Thorough:  []Plan{{Scenario: "slot.reuse", PB: 3, DB: 0}},
+		QuickSecs: 90, ThoroughSecs: 1200,
+		Assumptions: schedAssume,
+	},
 	"C12": {
 		Quick:     []Plan{{Scenario: "closed.api", PB: 1, DB: 3, NoIter: true}},
 		Thorough:  []Plan{{Scenario: "closed.api", PB: 2, DB: 3, NoIter: true}},
